@@ -59,6 +59,8 @@ def run(prop, tier, tree, record):
         if ev is not None:
             driver.write_evidence(prop, ev)
         return code
+    if prop == "C09":
+        return run_c09(tier, tree, record)
     if prop == "C19":
         return run_c19(tier, tree, record)
     if prop == "C20":
@@ -309,4 +311,28 @@ def run_gen(prop, tier, tree, record):
               "wall_s": round(wall, 2), "violations": nviol}
     driver.write_evidence(prop, ev)
     print(f"{prop}: generator runs={len(res)} parameter-sets={ngrid} violations={nviol} wall={wall:.1f}s exit={code}")
+    return code
+
+
+def run_c09(tier, tree, record):
+    import json, os
+    from checks import c09_monitor
+    code, ev = driver.check_property("C09", tier=tier, tree=tree, record=record, level="proof", design_ref="5/C09")
+    bad, err = c09_monitor.run(tree)
+    if err is not None:
+        bad = [f"the monitored calls raised: {err[-200:]}"]
+    if bad:
+        path = os.path.join(driver.VERIF, "replays", "C09-roundtrip-monitor.json")
+        os.makedirs(os.path.dirname(path), exist_ok=True)
+        json.dump({"harness": "none", "property": "C09", "obligation": "run-time contracts: array round trips / readable decoders / aux row",
+                   "verifier_output": bad}, open(path, "w"), indent=1)
+        print(f"VIOLATION property=C09 replay={path} no-failing-input-found")
+        for b in bad[:4]:
+            print(f"  failed obligation: (run-time contract) {b}")
+        code = 1
+    if ev is not None:
+        ev["coverage"]["run_time_contracts"] = {"what": "array round trips (from_numpy / numpy / numpy_flat), readable decoders, "
+                                                        "aux row, on tiny / small-honeypot / medium / generated with custom bounds",
+                                                "failures": bad}
+        driver.write_evidence("C09", ev)
     return code
